@@ -325,8 +325,29 @@ static bool PumpStream(AbstractMessageIOGateway * gw, ScriptIO & io, Collect & r
    return true;
 }
 
-struct GwKind { std::function<AbstractMessageIOGatewayRef()> make; int canon; };
+struct GwKind { std::function<AbstractMessageIOGatewayRef()> make; int canon; bool frameRef; GwKind() : canon(0), frameRef(false) {} };   // frameRef: plain 8-byte-header framing (length, encoding), see CheckFrames()
 static std::map<std::string, GwKind> g_gw;
+
+// Differential oracle for the standard stream framing (8-byte header: body length, encoding word; both little-endian): the i-th Message a
+// MessageIOGateway delivers must be the parse of the i-th frame's body AND NOTHING ELSE -- i.e. that body, handed to Message::UnflattenFromBytes
+// in an exact-size heap copy, must be accepted and flatten to the same bytes.  (A gateway that lets the Message parser run past the end of the
+// frame reads bytes that are not part of the supplied input -- stale bytes of its own receive buffer -- which no sanitizer can see.)
+// Only "delivered => frame body parses standalone to the same Message" is asserted; which malformed streams are rejected is left to the gateway.
+static void CheckFrames(const std::string & stream, const std::vector<MessageRef> & got, mutx::Case & c)
+{
+   size_t o = 0;
+   for (size_t i = 0; i < got.size(); i++) {
+      if (stream.size() < o + 8) { c.Fail("frame:more-messages-than-frames", verif::Fmt("Message #%u was delivered but the stream holds only %u complete frames", (unsigned)i, (unsigned)i)); return; }
+      const uint32 bl = RdLE((const uint8 *)stream.data() + o), enc = RdLE((const uint8 *)stream.data() + o + 4);
+      if (stream.size() - o - 8 < (size_t)bl) { c.Fail("frame:message-from-incomplete-frame", verif::Fmt("Message #%u was delivered although its frame (header at offset %u, body length %u) is not complete in the stream (%u bytes)", (unsigned)i, (unsigned)o, bl, (unsigned)stream.size())); return; }
+      if (enc == (uint32)MUSCLE_MESSAGE_ENCODING_DEFAULT) {
+         ExactBuf body(stream.substr(o + 8, bl)); Message ref;
+         if (ref.UnflattenFromBytes(body.p, body.n).IsError()) { c.Fail("frame:delivered-but-body-rejected-standalone", verif::Fmt("Message #%u was delivered from a frame (offset %u, body length %u) whose body the Message parser rejects when it is given exactly those %u bytes: the gateway let the parser read past the end of the frame", (unsigned)i, (unsigned)o, bl, bl)); return; }
+         if (FlatBytes(ref) != FlatBytes(*got[i]())) { c.Fail("frame:delivered-differs-from-body", verif::Fmt("Message #%u differs from the standalone parse of its frame's body (offset %u, body length %u)", (unsigned)i, (unsigned)o, bl)); return; }
+      }
+      o += 8 + (size_t)bl;
+   }
+}
 
 static void RunStreamGateway(const PartDef & pd, const Seed & seed, const std::string & in, const std::vector<uint32> &, int mode, bool dev0, mutx::Case & c)
 {
@@ -337,6 +358,7 @@ static void RunStreamGateway(const PartDef & pd, const Seed & seed, const std::s
       Phase("parse"); if (!PumpStream(gw(), io, rx, mode, pfx)) c.Fail("progress:input-loop-does-not-settle", "DoInput keeps reporting progress although no new bytes are delivered");
       c.Outcome(verif::Fmt("%d msgs", (int)rx.msgs.size()));
       for (size_t i = 0; i < rx.msgs.size(); i++) if (!CheckReflatten(*rx.msgs[i](), c, "delivered-Message")) break;
+      if (gk.frameRef && seed.prefix.empty() && !c.failed) { Phase("frame-check"); CheckFrames(in, rx.msgs, c); Phase("parse"); }
       if (dev0) { const std::string got = Canon(rx.msgs, gk.canon); if (got != seed.expect) c.Fail(std::string("valid-stream:not-delivered:") + pd.ModeName(mode), verif::Fmt("fault-free valid stream (%u bytes, %d Messages expected) delivered %d Messages / different content when fed ", (unsigned)in.size(), seed.numMsgs, (int)rx.msgs.size()) + pd.ModeName(mode)); }
       else {
          // reuse: Reset() is documented to make the gateway "ready to send and receive fresh data streams"
@@ -519,11 +541,14 @@ static void BuildParts(bool thorough, verif::Result & res)
    { PartDef p; p.name = "gw_message"; p.entry = "MessageIOGateway::DoInput (default encoding)"; p.modes = 2; p.resetDocumented = true; p.nest = true;
      p.wrapNest = [](const std::string & b) { std::string s(8, '\0'); WrLE((uint8 *)&s[0], (uint32)b.size()); WrLE((uint8 *)&s[4], (uint32)MUSCLE_MESSAGE_ENCODING_DEFAULT); return s + b; };
      for (size_t i = 0; i < seqs.size(); i++) { MessageIOGateway snd; p.seeds.push_back(StreamSeed("frames(" + seqNames[i] + ")", snd, seqs[i], true)); }
-     p.pairSeeds = thorough ? 6 : 0; p.run = RunStreamGateway; GwKind k; k.make = []() { return AbstractMessageIOGatewayRef(new MessageIOGateway()); }; k.canon = CANON_MSGS; g_gw[p.name] = k; g_parts.push_back(p); }
+     // one frame that does NOT fit the gateway's 2048-byte scratch receive buffer (the large-frame path receives into an exact-size pooled buffer)
+     { Message m(0x2010); std::string blob(2100, '\0'); for (size_t i = 0; i < blob.size(); i++) blob[i] = (char)(i * 7 + 1); (void)m.AddData("w", B_RAW_TYPE, blob.data(), (uint32)blob.size()); (void)m.AddInt64("l", 0x0102030405060708LL); (void)m.AddString("s", "tail");
+       MessageIOGateway snd; p.seeds.push_back(StreamSeed("frames(raw2100+int64+string)", snd, std::vector<MessageRef>(1, GetMessageFromPool(m)), true)); }
+     p.pairSeeds = thorough ? 6 : 0; p.run = RunStreamGateway; GwKind k; k.make = []() { return AbstractMessageIOGatewayRef(new MessageIOGateway()); }; k.canon = CANON_MSGS; k.frameRef = true; g_gw[p.name] = k; g_parts.push_back(p); }
    // MessageIOGateway, zlib encoding
    { PartDef p; p.name = "gw_message_zlib"; p.entry = "MessageIOGateway::DoInput (zlib-6 encoded stream)"; p.modes = 2; p.resetDocumented = true;
      for (size_t i = 0; i < seqs.size(); i++) { MessageIOGateway snd(MUSCLE_MESSAGE_ENCODING_ZLIB_6); p.seeds.push_back(StreamSeed("zframes(" + seqNames[i] + ")", snd, seqs[i], false)); }
-     p.run = RunStreamGateway; GwKind k; k.make = []() { return AbstractMessageIOGatewayRef(new MessageIOGateway()); }; k.canon = CANON_MSGS; g_gw[p.name] = k; g_parts.push_back(p); }
+     p.run = RunStreamGateway; GwKind k; k.make = []() { return AbstractMessageIOGatewayRef(new MessageIOGateway()); }; k.canon = CANON_MSGS; k.frameRef = true; g_gw[p.name] = k; g_parts.push_back(p); }
    // TemplatingMessageIOGateway: same-shaped Messages twice so that the payload-only encoding appears
    { PartDef p; p.name = "gw_templating"; p.entry = "TemplatingMessageIOGateway::DoInput"; p.modes = 2; p.resetDocumented = true;
      const char * names[] = {"mix3", "stringx3", "msgx3", "rawx3", "nest2", "big"};
